@@ -99,6 +99,37 @@ class C19(Prop):
     def nontrivial(self, d):
         return d.get("nontrivial", True)
 
+    def extra(self, ctx):
+        """`selene validate-config`: status 0 exactly when the configuration is valid, in every style, from a file or from stdin"""
+        rnd = random.Random(ctx["seed"] + 19)
+        wd = os.path.join(core.CACHE, "work", "C19-validate")
+        shutil.rmtree(wd, ignore_errors=True)
+        good = ['std = "lua51"\n', 'std = "lua52"\n[lints]\nunused_variable = "allow"\n', '', 'std = "luau"\nexclude = ["x"]\n']
+        # (lint names and lint settings are not part of what validate-config looks at on the pinned tree: left out)
+        bad = ['std = "nosuchstd"\n', 'std = "lua51+nosuchstd"\n', 'std = \n', 'std = "lua51"\nunknown_key = 1\n', '[lints]\nunused_variable = "maybe"\n']
+        out, runs = [], 0
+        for i in range(10 if ctx["tier"] == "quick" else 80):
+            pd = os.path.join(wd, str(i))
+            os.makedirs(pd, exist_ok=True)
+            valid = rnd.random() < 0.4
+            text = rnd.choice(good if valid else bad)
+            style = rnd.choice([[], [], ["--display-style", "quiet"], ["--display-style", "json2"], ["--display-style", "json"]])
+            use_stdin = rnd.random() < 0.4
+            if not use_stdin:
+                open(os.path.join(pd, "selene.toml"), "w").write(text)
+            args = ["validate-config"] + style + (["--stdin"] if use_stdin else [])
+            rc, so, se = cli.run_selene(pd, args, stdin=text.encode() if use_stdin else b"")
+            runs += 1
+            if (rc == 0) != valid:
+                rp = os.path.join(core.VERIF, "replays", "C19-validate-%d-seed%d.json" % (i, ctx["seed"]))
+                core.write_json(rp, {"property": "C19", "kind": "validate-config", "config": text, "args": args,
+                                     "valid": valid, "exit": rc, "stdout": so[-800:], "stderr": se[-800:]})
+                out.append({"kind": "spec", "replay": rp, "found_input": True,
+                            "text": "validate-config exits %d on a configuration that is %s" % (rc, "valid" if valid else "invalid")})
+        ctx["cov"]["validate_config_runs"] = runs
+        shutil.rmtree(wd, ignore_errors=True)
+        return out
+
     def generate(self, wd, seed, n, tier, only):
         rnd = random.Random(seed)
         proj_root = os.path.join(wd, "proj")
